@@ -26,6 +26,23 @@ class NeedSplit(Exception):
         self.cond = cond
 
 
+class _MaxF(sp.Function):
+    nargs = 2
+
+
+class _MinF(sp.Function):
+    nargs = 2
+
+
+def _lattice(op, a, b):
+    """uninterpreted, order-insensitive max/min over normalised arguments (sympy's own Max/Min try to decide
+    comparisons, which is both slow and not wanted in opaque mode)"""
+    if a == b:
+        return a
+    x, y = sorted((a, b), key=sp.default_sort_key)
+    return (_MaxF if op == 'max' else _MinF)(x, y)
+
+
 def canon(t):
     """canonical argument order for the commutative lattice operators (max/min), so that min(a,b) and min(b,a)
     are the same opaque leaf"""
@@ -398,6 +415,16 @@ class Prover:
         if op == 'powi': return self._conv(t[1], cx) ** int(t[2])
         if op == 'bool': return sp.Integer(1 if t[1] else 0)
         if getattr(self, '_opaque', False) and op in ('gamma', 'max', 'min', 'abs'):
+            # opaque mode: no case split.  abs/max/min become sympy's own Abs/Max/Min over the *normalised* arguments,
+            # so |A| and |B| coincide whenever A - B normalises to 0 (and |−x| = |x|, max/min are order-insensitive)
+            try:
+                if op == 'abs':
+                    return sp.Abs(sp.expand(self._conv(t[1], cx)))
+                if op in ('max', 'min'):
+                    a = sp.expand(self._conv(t[1], cx)); b = sp.expand(self._conv(t[2], cx))
+                    return (sp.Max if op == 'max' else sp.Min)(a, b, evaluate=False) if False else _lattice(op, a, b)
+            except Exception:
+                pass
             return cx.leaf(t)
         if op == 'gamma':
             raise NeedSplit(t[1])
